@@ -32,7 +32,7 @@ def requests(ctx):
         vars_ = vcdgen.gen_vars(rng)
         body = vcdgen.malform_body(rng, vars_, vcdgen.gen_body(rng, vars_, nsteps=rng.choice([1, 3, 6])))
         rq.append(vcdgen.request(rng.choice(["st", "rd"]), vars_, body))
-    # known-finding witnesses: tokens on the `$enddefinitions` line (F5a), `$dumpall` after time 0 (F24)
+    # known-finding witnesses: tokens on the `$enddefinitions` line (F5a), `$dumpall` after time 0 (F24, fixed)
     for _ in range(40 if quick else 400):
         vars_ = vcdgen.gen_vars(rng, style="dense")
         body = vcdgen.gen_body(rng, vars_, first_line=rng.choice([b" #5", b" #0 ", b" $dumpvars"]), values_before_time=False)
